@@ -18,35 +18,24 @@ func init() {
 	se := "serialization.go"
 	register(genFile{name: "TbsFacts", imports: []string{"CTV.Basic.I64"}, units: []unit{
 		// removeExtension: one iteration of the search loop; `none` = the function returns an error, `some extAt` = the new index.
-		{"removeExtension.step", loopBodyKernel(x, "removeExtension", "tbs.Extensions", "removeExtensionStep",
-			"(extAt i : Int) (idEqual : Bool)", "Option Int", "some extAt",
-			Spec{Ret: "errlast", Vars: map[string]string{"extAt": "extAt", "i": "i"}, Repl: map[string]string{"ext.Id.Equal(oid)": "idEqual"}})},
+		{"removeExtension.step", uniqLoopStep(x, "removeExtension", "removeExtensionStep")},
 		// … and what follows the loop: the error when nothing was found
-		{"removeExtension.absent", ifAfterLoop(x, "removeExtension", "tbs.Extensions", "extAt", "removeExtensionAbsent", "(extAt : Int)",
-			Spec{Vars: map[string]string{"extAt": "extAt"}})},
+		{"removeExtension.absent", uniqLoopAbsent(x, "removeExtension", "removeExtensionAbsent")},
 		// BuildPrecertTBS: the authority-key-id update, as normalised source (pinned by C03.facts_as_modelled)
-		{"BuildPrecertTBS.keyAtLoop", rangeLoopSrc(x, "BuildPrecertTBS", "tbs.Extensions", "buildPrecertKeyAtLoop")},
-		{"BuildPrecertTBS.issuerKeyIDLoop", rangeLoopSrc(x, "BuildPrecertTBS", "preIssuer.Extensions", "buildPrecertIssuerKeyIDLoop")},
-		{"BuildPrecertTBS.akiConds", ifChainConds(x, "BuildPrecertTBS", "keyAt >= 0", "buildPrecertAkiConds")},
+		// the two functions path by path, in a form that survives renames, hoists, helper extraction and control-flow restructuring
+		{"removeExtension.paths", canonPaths(x, "removeExtension", []string{"tbsData", "oid"}, nil, "removeExtensionPaths")},
+		{"BuildPrecertTBS.paths", canonPaths(x, "BuildPrecertTBS", []string{"tbsData", "preIssuer"}, []string{"removeExtension"}, "buildPrecertPaths")},
+		{"leaf.precert.calls", callArgsCanon(se, "MerkleTreeLeafFromChain", "x509.", "leafFromChainCallsCanon")},
+		{"leaf.embedded.calls", callArgsCanon(se, "MerkleTreeLeafForEmbeddedSCT", "x509.", "leafForEmbeddedCallsCanon")},
 		// EVERY statement of the two functions that writes to (a part of) `tbs`, or hands out `&tbs`, each with the conditions that guard it
-		{"removeExtension.writes", writesTo(x, "removeExtension", "tbs", "removeExtensionWrites")},
-		{"BuildPrecertTBS.writes", writesTo(x, "BuildPrecertTBS", "tbs", "buildPrecertWrites")},
-		{"removeExtension.data", writesTo(x, "removeExtension", "data", "removeExtensionData")},
-		{"BuildPrecertTBS.data", writesTo(x, "BuildPrecertTBS", "data", "buildPrecertData")},
-		{"removeExtension.returns", returnsOf(x, "removeExtension", "removeExtensionReturns", "extAt")},
-		{"BuildPrecertTBS.returns", returnsOf(x, "BuildPrecertTBS", "buildPrecertReturns")},
 		// … and every statement that reads `tbs` as a whole (what is marshalled, and where)
-		{"removeExtension.marshals", usesWhole(x, "removeExtension", "tbs", "removeExtensionMarshals")},
-		{"BuildPrecertTBS.marshals", usesWhole(x, "BuildPrecertTBS", "tbs", "buildPrecertMarshals")},
-		{"BuildPrecertTBS.appended", assignsTo(x, "BuildPrecertTBS", "authKeyIDExt", "buildPrecertAppended")},
 		{"oid.CTPoison", oidVar(x, "OIDExtensionCTPoison", "oidCTPoison")},
 		{"oid.CTSCT", oidVar(x, "OIDExtensionCTSCT", "oidCTSCT")},
 		{"oid.AuthorityKeyId", oidVar(x, "OIDExtensionAuthorityKeyId", "oidAuthorityKeyId")},
 		// the CT extended key usage: its OID, the rows of the EKU table that mention it, and the two loops that look for it
 		{"oid.ExtKeyUsageCT", oidVar(x, "oidExtKeyUsageCertificateTransparency", "oidExtKeyUsageCT")},
+		{"eku.IsPreIssuer", searchSummary(se, "IsPreIssuer", []string{"issuer"}, "isPreIssuerSearch")},
 		{"eku.table", tableRows(x, "extKeyUsageOIDs", "CertificateTransparency", "ekuTableCTRows")},
-		{"eku.IsPreIssuer", rangeLoopSrc(se, "IsPreIssuer", "issuer.ExtKeyUsage", "isPreIssuerLoop")},
-		{"eku.BuildPrecertTBS", rangeLoopSrc(x, "BuildPrecertTBS", "preIssuer.ExtKeyUsage", "buildPrecertEkuLoop")},
 		{"tags.tbsCertificate", structTags(x, "tbsCertificate", "asn1", "tbsCertificateFields")},
 		{"tags.validity", structTags(x, "validity", "asn1", "validityFields")},
 		{"tags.publicKeyInfo", structTags(x, "publicKeyInfo", "asn1", "publicKeyInfoFields")},
@@ -62,7 +51,6 @@ func init() {
 			"`parseBase128Int` refuses a group whose first byte is the padding byte 0x80 (non-minimal arc / tag number)")},
 		{"wiring.RemoveSCTList", soleReturn(x, "RemoveSCTList", "removeSCTListReturns")},
 		{"wiring.RemoveCTPoison", soleReturn(x, "RemoveCTPoison", "removeCTPoisonReturns")},
-		{"wiring.BuildPrecertTBS.first", firstAssign(x, "BuildPrecertTBS", "buildPrecertTBSFirst")},
 		// the chain-length guards of the two leaf builders (n = len(chain))
 		{"leaf.precert.guard2", condKernel(se, "MerkleTreeLeafFromChain", []string{"len(chain)", "2"}, "leafChainTooShort", "(n : Int)",
 			Spec{Repl: map[string]string{"len(chain)": "n"}})},
@@ -70,8 +58,6 @@ func init() {
 			Spec{Repl: map[string]string{"len(chain)": "n"}})},
 		{"leaf.embedded.guard2", condKernel(se, "MerkleTreeLeafForEmbeddedSCT", []string{"len(chain)", "2"}, "leafEmbeddedChainTooShort", "(n : Int)",
 			Spec{Repl: map[string]string{"len(chain)": "n"}})},
-		{"wiring.leaf.precert", callsOf(se, "MerkleTreeLeafFromChain", "x509.", "leafFromChainCalls")},
-		{"wiring.leaf.embedded", callsOf(se, "MerkleTreeLeafForEmbeddedSCT", "x509.", "leafForEmbeddedCalls")},
 	}})
 }
 
